@@ -51,7 +51,7 @@ class ConstSource(ChoiceSource):
 def check_point(x, box, what, t):
     d = len(box)
     if not isinstance(x, (list, tuple, np.ndarray)) or len(x) != d:
-        raise Violation("C01.shape", "%s returned %r, not a list of %d numbers (round %d)" % (what, x, d, t), where=what)
+        raise Violation("C01.shape", "%s returned %r, not a list of %d numbers (round %d)" % (what, x, d, t), where=what, round=t)
     for v, (lo, hi) in zip(x, box):
         try:
             f = float(v)
@@ -67,9 +67,10 @@ class TotalityOracle(Oracle):
     name = "C01"
     wants_none = True
 
-    def __init__(self, T, mode):
+    def __init__(self, T, mode, final_only=False):
         self.T = T
         self.mode = mode
+        self.final_only = final_only  # nested confirmation run: query the live object at the end, raise on failure
 
     def begin(self, ctx):
         self.box = [(float(lo), float(hi)) for lo, hi in ctx.cfg["domain"]]
@@ -86,47 +87,92 @@ class TotalityOracle(Oracle):
         if not ctx.judging:
             return
         t = ctx.t
-        if ctx.cfg["algo"] == "VROOM":
-            # the tree is large and get_last_point() grows it: query the live object when the
-            # execution is over (nothing follows), a deep copy only at two intermediate rounds of long runs
-            if t == self.T:
-                self.query(ctx, live=True)
-            elif self.T > 10 and t in (5, 34):
+        if t == self.T:
+            # the loop is over: the recommendation is asked of the object itself, as the documented loop does
+            self.query(ctx, live=True)
+        elif self.final_only:
+            return
+        elif ctx.cfg["algo"] == "VROOM":
+            # the tree is large and get_last_point() grows it: a deep copy only at two intermediate rounds of long runs
+            if self.T > 10 and t in (5, 34):
                 self.query(ctx)
-        elif self.mode == "full" or t in QUERY_ROUNDS or t == self.T:
+        elif self.mode == "full" or t in QUERY_ROUNDS:
             self.query(ctx)
 
+    def _ask(self, ctx, obj, mode):
+        """Returns (point, None) or (None, Violation)."""
+        sm = seam()
+        sm.set_source(ConstSource(mode))
+        try:
+            x = obj.get_last_point()
+        except (Violation, HarnessError):
+            raise
+        except StepBudget.Hang:
+            return None, Violation("C01.hang", "get_last_point() after round %d did not return within the branch budget" % ctx.t,
+                                   where="get_last_point")
+        except Exception as e:  # noqa
+            return None, Violation("C01.crash", "get_last_point() after round %d raised %s: %s" % (ctx.t, type(e).__name__, e),
+                                   where="get_last_point", exc=type(e).__name__, early=self.early(ctx))
+        finally:
+            budget().reset()
+        try:
+            check_point(x, self.box, "get_last_point", ctx.t)
+        except Violation as v:
+            return None, v
+        return x, None
+
     def query(self, ctx, live=False):
+        """The loop may stop after any round: ask for the recommendation.  After the last round the live object
+        is asked.  At intermediate rounds a deep copy is asked (so that the run is not disturbed); a failure of the
+        copy is only reported if a separate execution that stops at this round fails on its live object too (an
+        implementation may legitimately keep state that does not survive copying, e.g. keyed by object identity)."""
         sm = seam()
         src = sm.src
         rec = ExpansionRecorder.ACTIVE
+        st = ctx.extra["stats"]
         modes = (0, -1) if (ctx.cfg["algo"] == "VROOM" and not live) else ((-1 if ctx.t % 2 else 0),)
         try:
             for m in modes:
                 ExpansionRecorder.ACTIVE = None
-                clone = ctx.algo if live else copy.deepcopy(ctx.algo)
-                sm.set_source(ConstSource(m))
-                try:
-                    x = clone.get_last_point()
-                except (Violation, HarnessError):
-                    raise
-                except StepBudget.Hang:
-                    raise Violation("C01.hang", "get_last_point() after round %d did not return within the branch budget" % ctx.t,
-                                    where="get_last_point")
-                except Exception as e:  # noqa
-                    # recorded without aborting the execution: the loop itself goes on
-                    soft_violation(ctx, Violation("C01.crash", "get_last_point() after round %d raised %s: %s"
-                                                  % (ctx.t, type(e).__name__, e), where="get_last_point",
-                                                  exc=type(e).__name__, early=self.early(ctx)))
-                    budget().reset()
+                obj = ctx.algo if live else copy.deepcopy(ctx.algo)
+                x, v = self._ask(ctx, obj, m)
+                st.bump("last_point_queries")
+                if v is None:
                     continue
-                finally:
-                    budget().reset()
-                check_point(x, self.box, "get_last_point", ctx.t)
-                ctx.extra["stats"].bump("last_point_queries")
+                if not live:
+                    v = self.confirm_live(ctx, m)
+                    if v is None:
+                        st.bump("failures_of_the_copy_only")
+                        continue
+                if self.final_only or v.oracle != "C01.crash":
+                    raise v
+                # a crashing recommendation is recorded without aborting the execution: the loop itself goes on
+                soft_violation(ctx, v)
         finally:
             sm.set_source(src)
             ExpansionRecorder.ACTIVE = rec
+
+    def confirm_live(self, ctx, mode):
+        """Separate execution of the same script, stopped at the current round, asking the live object."""
+        from .. import world
+
+        script = [p[2] for p in ctx.src.points]
+        sm = seam()
+        old_src, old_rec = sm.src, ExpansionRecorder.ACTIVE
+        log = list(sm.choice_log)
+        try:
+            world.execute(ctx.cfg, script, None, -1, ctx.t, ctx.reward_fn, [TotalityOracle(ctx.t, self.mode, final_only=True)],
+                          ctx.learner_classes, ctx.labels)
+            return None
+        except Violation as v:
+            return v
+        except world.AlgoCrash:
+            return None  # cannot happen on a faithful replay; not this query's business
+        finally:
+            sm.set_source(old_src)
+            sm.choice_log[:] = log
+            ExpansionRecorder.ACTIVE = old_rec
+            budget().reset()
 
 
 def _early(algo):
@@ -150,7 +196,7 @@ def on_crash(crash, cfg, pts, stats):
     if "(hang)" in str(e):
         raise Violation("C01.hang", "%s did not return within the branch budget" % crash.where, where=crash.where)
     raise Violation("C01.crash", "%s raised %s: %s" % (crash.where, type(e).__name__, e), where=crash.where,
-                    exc=type(e).__name__, traceback=crash.tb[-600:])
+                    exc=type(e).__name__, traceback=crash.tb[-600:], round=(crash.t or 0))
 
 
 # ----------------------------------------------------------------------------- pool
@@ -270,6 +316,6 @@ def replay(task, script):
 
 def bounds(tier):
     return {"configs": "%d parameter variants x 11 partitions x 6 boxes%s" % (len(param_grid()), " (seed-rotated quarter)" if tier == "quick" else ""),
-            "full_T": 3 if tier == "quick" else 4, "full_rewards": list(configs.R4), "full_rng_deviations": 1,
+            "full_T": 3 if tier == "quick" else 4, "full_rewards": [0.0, -1.0, 1e6] if tier == "quick" else list(configs.R4), "full_rng_deviations": 1,
             "base_scripts_T": 100, "dev_T": 40 if tier == "quick" else 100, "dev_k": 1,
             "last_point_query_rounds": sorted(QUERY_ROUNDS) + ["T"]}
